@@ -168,7 +168,7 @@ CORE = {
     'C02': (['C02_Lifecycle'], []),
     'C03': (['C03_ParentDone', 'C03_ProcMirrorsRoot', 'C03_Events', 'C03_TerminalEvent', 'C03_CleanEnding'], []),
     'C04': (['C04_Outcome', 'C04_Order', 'C01_QuiescentOK'], []),
-    'C05': (['C05_Admission', 'C05_TerminalRejected', 'C05_AtMostOnce', 'C05_NoDupSuccessor'], ['C05_RejectedIsNoop']),
+    'C05': (['C05_Admission', 'C05_TerminalRejected', 'C05_AtMostOnce', 'C05_NoDupSuccessor'], ['C05_RejectedIsNoop', 'C05_LiveProcess']),
     'C06': (['C06_Propagates', 'C06_CatchMatches', 'C06_CatchStepsOnce', 'C06_CaughtCompletes'], []),
     'C08': (['C08_AtMostOne', 'C08_CreatedFirst', 'C08_TerminalReported', 'C08_BranchSilent', 'C08_MsgAct',
              'C08_ParentFirst'], []),
@@ -187,7 +187,7 @@ CORE = {
 GROUP = {'C19': 'clock', 'C11': 'store', 'C12': 'store', 'C17': 'store', 'C13': 'multi', 'C15': 'multi'}
 
 # retention, admission and the quiescence rule also hold for child processes and side-by-side processes
-ALSO = {'C17': ['multi'], 'C01': ['multi'], 'C05': ['multi'], 'C03': ['multi'], 'C04': ['loops']}
+ALSO = {'C17': ['multi'], 'C01': ['multi'], 'C05': ['multi', 'store'], 'C03': ['multi'], 'C04': ['loops'], 'C11': ['core']}
 
 TIERS = {
     # mc: list of (family, client action budget); rand: list of (family, runs, shards)
